@@ -43,3 +43,17 @@ package client
 //@ func (*Client).setFailureCondition
 //@   modifies fd.forceFailureErr, fd.mu
 //@   ensures[C15] fd.forceFailureErr == old(emulatingErrors[condition])
+
+// ---- C15 / C19: a failed batch request is either reported to the caller or recorded as unprocessed -----
+
+//@ func handleBatchWriteRequestError
+//@   requires unprocessed != nil
+//@   modifies unprocessed[*], arrays("*ddb1.WriteRequest")
+//@   ensures[C15,C19] err == nil ==> result == nil
+//@   ensures[C15,C19] result != nil ==> result == err
+//@   ensures[C15,C19] (err == nil || result != nil) ==> content(unprocessed) == old(content(unprocessed))
+//@   ensures[C15,C19] err != nil && result == nil ==> table in unprocessed &&
+//@                len(unprocessed[table]) == old(table in unprocessed ? len(unprocessed[table]) : 0) + 1 &&
+//@                unprocessed[table][len(unprocessed[table]) - 1] == req
+//@   ensures[C15,C19] err != nil && result == nil ==> forall j int :: 0 <= j && j < old(table in unprocessed ? len(unprocessed[table]) : 0) ==> unprocessed[table][j] == old(unprocessed[table][j])
+//@   ensures[C15,C19] forall t2 string :: {unprocessed[t2]} t2 != table ==> ((t2 in unprocessed) == old(t2 in unprocessed)) && unprocessed[t2] == old(unprocessed[t2])
